@@ -28,9 +28,15 @@ type halfPipe struct {
 	// failWriteAt: if >=0 the write that would make written exceed it fails
 	failWriteAt int64
 	failWriteE  error
+	// failWriteTransient: the injected write failure happens once (a write deadline, flow control): the bytes up
+	// to failWriteAt are accepted, the write reports the error, later writes are accepted again
+	failWriteTransient bool
 	// failReadAt: if >=0 reads fail once read reaches it
 	failReadAt int64
 	failReadE  error
+	// failReadTransient: the injected read failure is reported once (an expired read deadline, a transient
+	// error); afterwards the remaining bytes are handed out as if nothing had happened
+	failReadTransient bool
 	onWrite    func(p []byte)
 	// endWithData: the read that hands out the last bytes also reports the end (n > 0 together with io.EOF or
 	// the injected error), as io.Reader allows and QUIC streams do on FIN
@@ -72,7 +78,11 @@ func (h *halfPipe) Write(p []byte) (int, error) {
 		}
 		h.buf = append(h.buf, p[:n]...)
 		h.written += int64(n)
-		h.werr = h.failWriteE
+		if h.failWriteTransient {
+			h.failWriteAt = -1
+		} else {
+			h.werr = h.failWriteE
+		}
 		h.cond.Broadcast()
 		return n, h.failWriteE
 	}
@@ -93,6 +103,10 @@ func (h *halfPipe) Read(p []byte) (int, error) {
 			return 0, h.rerr
 		}
 		if h.failReadAt >= 0 && h.read >= h.failReadAt {
+			if h.failReadTransient {
+				h.failReadAt = -1
+				return 0, h.failReadE
+			}
 			h.rerr = h.failReadE
 			return 0, h.rerr
 		}
